@@ -4,5 +4,5 @@ Require Import ExtrOcamlBasic.
 From Coq Require Import ZArith NArith.
 From Verif.C08 Require Import Extracted Model Spec Repack.
 Extraction "model_ml.ml" hdr_to_binary hdr_from_binary hdr_size hdr_pack_size from_file read_of
-  packer_run rebuild_index describes_b layout_b spec_groups pack_of_group le32 rd32 Z.of_N
+  packer_run rebuild_index describes_b layout_b spec_groups pack_of_group le32 rd32 Z.of_N packer_run_auto
   repack coalesce_all cpb_coalesce bl_coalesce from_index_entry from_blob_location sorted_ce expected_of.
